@@ -146,6 +146,29 @@ func (e *Extractor) updateKnown(info *types.Info, as *ast.AssignStmt) {
 		}
 		return
 	}
+	// `v, ok := table[k]` with a known key in a package-level table that is never
+	// written: the entry (a function or method expression, a constant) and ok
+	if len(as.Rhs) == 1 && len(as.Lhs) == 2 {
+		if ix, isIx := ast.Unparen(as.Rhs[0]).(*ast.IndexExpr); isIx {
+			if val, found, ok := e.tableLookup(info, ix); ok {
+				if o := objOf(as.Lhs[0]); o != nil {
+					delete(e.known, o)
+					if found {
+						if k, ok := e.eval(info, val); ok {
+							e.known[o] = k
+						}
+					}
+				}
+				if o := objOf(as.Lhs[1]); o != nil {
+					e.known[o] = 0
+					if found {
+						e.known[o] = 1
+					}
+				}
+				return
+			}
+		}
+	}
 	// tuple from one call: the results of an inlined helper
 	var fr *inlineFrame
 	if len(as.Rhs) == 1 {
@@ -438,8 +461,26 @@ func (e *Extractor) evalDepth(info *types.Info, x ast.Expr, depth int) (int64, b
 		return 0, false
 	}
 	switch v := x.(type) {
+	case *ast.SelectorExpr:
+		// a method value `r.ReadFloat` (not a call): a known function value; likewise
+		// a method expression `(*T).ReadFloat` and a package-qualified function
+		if s, ok := info.Selections[v]; ok && (s.Kind() == types.MethodVal || s.Kind() == types.MethodExpr) {
+			if f, isF := s.Obj().(*types.Func); isF {
+				return e.fnValue(f), true
+			}
+		}
+		if f, isF := info.Uses[v.Sel].(*types.Func); isF {
+			return e.fnValue(f), true
+		}
+	case *ast.IndexExpr:
+		if val, found, ok := e.tableLookup(info, v); ok && found {
+			return e.evalDepth(info, val, depth+1)
+		}
 	case *ast.Ident:
 		o := info.Uses[v]
+		if f, isF := o.(*types.Func); isF {
+			return e.fnValue(f), true
+		}
 		if k, ok := e.known[o]; ok {
 			return k, true
 		}
